@@ -680,6 +680,23 @@ def gen_roundtrip(cls, rng, tier):
         for fmt in ("json", "cbor"):
             steps += ["gser 0 %s" % fmt, "grt 0 %s" % fmt]
         cases.append(Case("rtH%s%d" % (cls, i), cls, steps, dict(kind="hub-graph-roundtrip", nodes=n, edges=len(edges))))
+    # containers that are NOT closed under adjacency: a member with an edge to / from a node that is not a member (never
+    # inserted, or removed while still linked). Listed known finding of C12 (KNOWN_FINDINGS.txt): decided on every run.
+    for i in range(60 if tier == "thorough" else 10):
+        n = rng.randint(2, 5)
+        keys = rng.sample(range(1, 60), n)
+        vals = [rng.randint(-5, 5) for _ in range(n)]
+        members = sorted(rng.sample(range(n), rng.randint(1, n - 1)))
+        outside = [u for u in range(n) if u not in members]
+        edges = [(rng.randrange(n), rng.randrange(n), 10 + j) for j in range(rng.randint(0, 4))]
+        a, b = rng.choice(members), rng.choice(outside)
+        edges.append((a, b, 70) if (i % 2 == 0) else (b, a, 71))       # the crossing edge, either orientation
+        rng.shuffle(edges)
+        g = sc.G(cls, keys, vals, edges)
+        steps = g.steps() + ["snap", "gnew"] + ["gins 0 %d" % u for u in members]
+        for fmt in ("json", "cbor"):
+            steps += ["gser 0 %s" % fmt, "grt 0 %s" % fmt]
+        cases.append(Case("rtB%s%d" % (cls, i), cls, steps, dict(kind="container-not-closed-under-adjacency", oracle_only=True, members=members)))
     # graphs with a history: parallel edges made from both ends, self-loops, then disconnect / isolate / refused try_connect /
     # reconnect, and only then the round trip (decided against the implementation's own snapshot taken just before)
     for i in range(2000 if tier == "thorough" else 400):
@@ -755,6 +772,26 @@ def oracle_roundtrip(case, obs):
             continue
         if st.startswith("grt"):
             mem = members.get(int(st.split()[1]), set())
+            # directed: the outgoing edges of every member must come back; undirected: every incident edge of a member
+            crossing = [(u, v, e) for (u, v, e) in g.edges if (u in mem) != (v in mem) and (cls == "U" or u in mem)]
+            if crossing:
+                # the property read literally: the round trip gives back the members with all their edges — impossible for an
+                # edge whose other endpoint is not in the document (known finding `container-not-closed-under-adjacency`)
+                order, rest = parse_ord(text)
+                if order is None or not rest.startswith("de ok"):
+                    return "step %d `%s`: a container whose member %d has an edge %s a non-member serialises to a document its own deserialiser rejects: %s" % (
+                        si, st, g.keys[crossing[0][0] if crossing[0][0] in mem else crossing[0][1]], "to" if crossing[0][0] in mem else "from", text[:60])
+                back = parse_gsnap(rest[5:], cls)
+                lost = []
+                for (u, v, e) in crossing:
+                    k = g.keys[u] if u in mem else g.keys[v]
+                    have = (back or {}).get(k, {})
+                    lst = have.get("out", []) + have.get("in", []) + have.get("adj", [])
+                    if not any(x[2] == e for x in lst):
+                        lost.append((g.keys[u], g.keys[v], e))
+                if lost:
+                    return "step %d `%s`: the round trip of a container that is not closed under adjacency silently loses the edge(s) %s" % (si, st, lost[:3])
+                continue
             if len(mem) != g.n:
                 continue   # only whole-graph containers are decided here (members closed under adjacency)
             order, rest = parse_ord(text)
